@@ -132,7 +132,7 @@ def run(prop, tier, seed, only_replay=None):
                filter=c.get("filter") if isinstance(c.get("filter"), str) else str(c.get("filter")),
                vars=[[n, sx.dumps(x)] for n, x in c.get("vars", [])],
                inputs=[sx.dumps(x) for x in c.get("inputs", ["null"])], actual=sx.dumps(v["impl"]) if v.get("impl") is not None else None,
-               how_to_run="./jv replay <this file>", extra=v.get("extra")))
+               how_to_run="./jv replay <this file>", extra=v.get("extra")), found_input=not v.get("noinput"))
     for d in disagreements[:50]:
         c = d["case"]
         key = mod.disagreement_key(c, d) if hasattr(mod, "disagreement_key") else "model-vs-impl:" + c.get("kind", "?")
